@@ -34,6 +34,18 @@ pub fn lossless_picture(kind: Kind, raw: i128, choices: &[u32]) -> (Vec<CTok>, V
             1 => {
                 date.push(Tok::DDD);
                 tags.push("day-of-year-instead-of-month-day");
+                // optionally a redundant, consistent day of month or month next to the day of year
+                match ch.pick(4) {
+                    1 => {
+                        date.push(Tok::DD);
+                        tags.push("extra-consistent-day-of-month");
+                    }
+                    2 => {
+                        date.push(Tok::MM);
+                        tags.push("extra-consistent-month");
+                    }
+                    _ => {}
+                }
                 false
             }
             _ => true,
@@ -177,6 +189,17 @@ fn push_fraction(v: &mut Vec<Tok>, usec: u32, ch: &mut Ch) {
 
 /// format -> reference text -> parse -> same value -> format again gives the same bytes.
 pub fn check_roundtrip(kind: Kind, raw: i128, pic: &str) -> Result<(), String> {
+    // a lossless picture names the full date, so the result must not depend on the clock: the
+    // current local date is varied through the hook, derived from the case itself
+    let c = cal();
+    let ck = &c.rows[(mix64(raw as u64 ^ hash_bytes(6, pic.as_bytes())) % c.len() as u64) as usize];
+    ad::clock_set(ck.y, ck.m as u32, ck.d as u32, 1, 2, 3, 4);
+    let r = check_roundtrip_inner(kind, raw, pic);
+    ad::clock_clear();
+    r.map_err(|m| format!("{m} [current local date injected: {:04}-{:02}-{:02}]", ck.y, ck.m, ck.d))
+}
+
+fn check_roundtrip_inner(kind: Kind, raw: i128, pic: &str) -> Result<(), String> {
     let v = Val::new(kind, raw);
     let lv = ad::to_lib(&v).map_err(|e| format!("value rejected: {e:?}"))?;
     let text = match ad::format_lazy(&lv, pic).map_err(|p| format!("{}::format({raw}, {pic:?}): {p}", kind.name()))? {
